@@ -38,6 +38,31 @@ def spawn(binary, argv, data, mode):
         finally:
             os.close(fd)
         return p.returncode, out, err
+    if mode == "leaves":
+        # the reader of standard output takes the first line and goes away while most rows are still to be written (like `| head -n 1` on a long
+        # output): the writes that follow fail with EPIPE - an output failure after a success
+        import threading as _th
+        with SPAWN_LOCK:
+            p = subprocess.Popen([binary] + argv, stdin=subprocess.PIPE, stdout=subprocess.PIPE, stderr=subprocess.PIPE)
+
+        def feed():
+            try:
+                p.stdin.write(data)
+                p.stdin.close()
+            except (BrokenPipeError, OSError, ValueError):
+                pass
+        th = _th.Thread(target=feed, daemon=True)
+        th.start()
+        first = p.stdout.readline()
+        p.stdout.close()
+        try:
+            err = p.stderr.read()
+            p.wait(timeout=60)
+        except subprocess.TimeoutExpired:
+            p.kill()
+            return -999, b"", b"timeout"
+        th.join(timeout=5)
+        return p.returncode, first, err
     if mode == "closed":
         # a pipe whose read end is closed before the child exists: every write fails with EPIPE (no window in which some other
         # process forked by this harness could still hold the read end)
@@ -72,7 +97,7 @@ def check(tier, seed, replay=None):
     chk = Check("C20", tier, seed)
     quick = tier == "quick"
     chk.rule = ("a case is one run of the real jawk executable (built from /repo) as a child process with pipes: clean or noisy input x the four "
-                "--on-error policies x valid / invalid configuration x stdout normal / closed by the reader before any row / full device; distinct = "
+                "--on-error policies x valid / invalid configuration x stdout normal / closed by the reader before any row / left by the reader after the first line of a long output / full device; distinct = "
                 "distinct (argv, stdin, stdout mode); non-trivial = a noisy input, an invalid configuration or an unwritable stdout")
     chk.assumptions = ["a stdout file descriptor that is closed before exec is not a failure jawk can observe (the Rust runtime swallows EBADF on the "
                        "standard streams) and is not used", "expected outcome class: failure iff invalid configuration, or --on-error=panic with a malformed "
@@ -144,6 +169,12 @@ def check(tier, seed, replay=None):
         # all-garbage inputs on an unwritable stdout under --on-error=stdout (the diagnostics are the only output)
         for mode in ("closed", "full"):
             plans.append({"policy": "stdout", "argv": ["--on-error=stdout"], "stdin": hexs(b"} ] : x\n"), "regions": 1, "invalid": False, "mode": mode, "nvals": 0})
+        # a long output whose reader leaves after the first line
+        long_in = b"".join(b'{"n": %d, "pad": "%s"}\n' % (j, b"x" * 48) for j in range(6000))
+        for argv in ([], ["--output-style=csv", "--select=.n =n", "--select=.pad =p"], ["--sort-by=.n DESC"], ["--output-style=text", "--select=.n =n", "--select=.pad =p"],
+                     ["--select=.pad =p"], ["--split-by=(push [] .)"], ["--unique"]):
+            for policy in ("ignore", "stderr"):
+                plans.append({"policy": policy, "argv": ["--on-error=" + policy] + argv, "stdin": hexs(long_in), "regions": 0, "invalid": False, "mode": "leaves", "nvals": 6000})
     # file operands: a file that does not exist is a failure of the run even when --take ends it before that file's turn
     fdir = os.path.join(WORK, "c20-files-%d" % os.getpid())
     os.makedirs(fdir, exist_ok=True)
@@ -182,7 +213,7 @@ def check(tier, seed, replay=None):
         if any(a.startswith("--take") for a in p["argv"]):
             regions_eff = min(p["regions"], bytes.fromhex(t["err"]).count(b"error:") if p["policy"] == "stderr" else p["regions"])
         rec.update({"case": len(recs), "regions": regions_eff, "want": "err" if fails else "ok", "code": code if code >= 0 else 255,
-                    "fd1": list(out), "fd2": list(err), "base": list(bytes.fromhex(t["out"])), "checkrows": p["mode"] == "normal" and not fails})
+                    "fd1": list(out), "fd2": list(err), "base": list(bytes.fromhex(t["out"])) if p["mode"] != "leaves" else [], "checkrows": p["mode"] == "normal" and not fails})
         if p["mode"] == "stdin-dir":
             rec["policy"] = "ignore"
         recs.append(rec)
